@@ -276,3 +276,28 @@ def standin_tagtable(prop, tier, seed, scratch, root):
     row['violations'].append({'props': ['C20'], 'ob': 'C20.table.exhaustive', 'fn': 'Tag / Subsystem', 'message': rr.get('output', '')[-500:], 'where': 'mpd_client/src/tag.rs', 'rendered': rr.get('output', ''),
                               'input': {'see': 'output'}, 'replayed': rr, 'replay_bin': 'c20_tags', 'replay_args': []})
     return row
+
+
+def standin_cmddiff(prop, tier, seed, scratch, root):
+    """every predefined command / builder path x boundary and random parameters, tokenised with the MPD tokenizer port, compared semantically with an expectation table"""
+    import replay as RP, json
+    n = 300 if tier != 'thorough' else 6000
+    rr = RP.run_bin('cmd_diff', scratch, ['search', str(1 + max(seed, 0)), str(n), 'huge'], timeout=3000)
+    row = {'function': 'Command::command of all 58 predefined commands, every constructor / builder path (mpd_client/src/commands/definitions.rs), Argument impls for numbers, bool, Duration, SongId/SongPosition, ranges',
+           'engine': 'native differential run against a per-command expectation table written from the MPD protocol reference (replay/src/bin/cmd_diff.rs), lines tokenised by the port of MPD Tokenizer',
+           'label': 'bounded', 'violations': [],
+           'bound': 'all boundary combinations (0, 1, MAX-1, MAX, empty/inverted ranges, excluded starts via (Bound, Bound), sub-millisecond and tie durations, durations up to Duration::MAX, all enum variants, all 31 tags, strings with blanks / non-ASCII) of 125 command/builder paths + %d random draws per path, seed %d; strings without a blank containing a quote or backslash excluded (C06 known finding)' % (n, 1 + max(seed, 0))}
+    if not rr.get('ran'):
+        row['undecided'] = rr.get('reason', 'did not run'); return row
+    try:
+        j = json.loads(rr.get('full_output', rr['output']).strip().split('\n')[-1])
+    except Exception:
+        row['undecided'] = 'output unreadable: ' + rr.get('output', '')[-300:]; return row
+    if not rr['fails']:
+        row['result'] = 'agree'; row['cases'] = j.get('cases', 0); row['distinct_nontrivial'] = j.get('cases', 0); row['paths'] = j.get('paths'); return row
+    row['result'] = 'DEVIATION'; row['deviation'] = j
+    args = ['case', j['path'], str(j['case'])]
+    rep = RP.run_bin('cmd_diff', scratch, args); rep.pop('full_output', None)
+    row['violations'].append({'props': ['C15'], 'ob': 'command.diff', 'fn': j.get('path', ''), 'message': 'the request written differs from the documented one: %s (line %r)' % (j.get('why', ''), j.get('line', '')),
+                              'where': 'mpd_client/src/commands/definitions.rs', 'rendered': json.dumps(j)[:3000], 'input': {'path': j['path'], 'case': j['case']}, 'replayed': rep, 'replay_bin': 'cmd_diff', 'replay_args': args})
+    return row
